@@ -160,7 +160,7 @@ fn slug(s: &str) -> String {
 /// union is `s`: every entry goes to one random layer (with its ancestors as directories), directories
 /// may additionally exist in other layers, and files in a lower layer may be shadowed by the upper
 /// copy with different bytes.  Pure data shuffling; TLC checks Merge(layers) = observation at init.
-fn split_state(lts: &Lts, s: &Snap, n: usize, rng: &mut StdRng, lower_only: bool) -> Vec<Option<Snap>> {
+fn split_state(lts: &Lts, s: &Snap, n: usize, rng: &mut StdRng, lower_only: bool) -> (Vec<Option<Snap>>, Vec<Vec<String>>) {
     let u = &lts.universe;
     let absent = vec![0i64];
     let mut layers: Vec<Snap> = (0..n).map(|_| vec![absent.clone(); u.len()]).collect();
@@ -238,7 +238,48 @@ fn split_state(lts: &Lts, s: &Snap, n: usize, rng: &mut StdRng, lower_only: bool
             }
         }
     }
-    layers.into_iter().map(Some).collect()
+    // third pass: a write layer that was used before (persisted deletions): paths that are ABSENT from the
+    // union although a lower layer holds an entry, because the write layer carries a whiteout marker for
+    // them; and stale markers next to an entry of the write layer (the entry wins)
+    let mut markers: Vec<Vec<String>> = vec![];
+    if n > 1 {
+        for (i, p) in u.iter().enumerate() {
+            let parent_is_dir = p.len() == 1 || s[idx[&p[..p.len() - 1].to_vec()]][0] == 1;
+            let below_marked = markers.iter().any(|m| m.len() < p.len() && p[..m.len()] == m[..]);
+            if s[i][0] == 0 && parent_is_dir && !below_marked && rng.gen_bool(0.2) {
+                // nothing of the union lives below an absent path, so the subtree is free in every layer
+                if layers.iter().any(|l| u.iter().enumerate().any(|(j, q)| q.len() >= p.len() && q[..p.len()] == p[..] && l[j][0] != 0)) {
+                    continue;
+                }
+                let l = rng.gen_range(1..n);
+                if (1..p.len()).any(|k| layers[l][idx[&p[..k].to_vec()]][0] == 2) {
+                    continue;
+                }
+                ensure_parents(&mut layers[l], p);
+                let has_kids = u.iter().any(|q| q.len() > p.len() && q[..p.len()] == p[..]);
+                let mark_all = rng.gen_bool(0.5);
+                markers.push(p.clone());
+                if has_kids && rng.gen_bool(0.6) {
+                    layers[l][i] = vec![1];
+                    for (j, q) in u.iter().enumerate() {
+                        if q.len() > p.len() && q[..p.len()] == p[..] && rng.gen_bool(0.7) {
+                            let inner = u.iter().any(|r| r.len() > q.len() && r[..q.len()] == q[..]);
+                            ensure_parents(&mut layers[l], q);
+                            layers[l][j] = if inner { vec![1] } else { vec![2, 3] };
+                            if mark_all {
+                                markers.push(q.clone());
+                            }
+                        }
+                    }
+                } else {
+                    layers[l][i] = vec![2, 3];
+                }
+            } else if s[i][0] != 0 && layers[0][i][0] != 0 && rng.gen_bool(0.08) {
+                markers.push(p.clone()); // stale marker: the write layer's own entry is newer
+            }
+        }
+    }
+    (layers.into_iter().map(Some).collect(), markers)
 }
 
 struct Stats {
@@ -269,8 +310,14 @@ impl AnySession {
 }
 pub fn new_any_session(lts: &Lts, o: &WalkOpts, s: &Snap, rng: &mut StdRng) -> AnySession {
     if let Some(cfg) = o.cfg.strip_prefix("async:") {
-        let a = crate::aworld::ASession::new(cfg, &o.names, o.b, &lts.universe);
-        a.populate_state(s);
+        let mut a = crate::aworld::ASession::new(cfg, &o.names, o.b, &lts.universe);
+        let nl = a.w.layers.len();
+        if nl > 1 && o.split {
+            let (parts, markers) = split_state(lts, s, nl, rng, o.lower_only);
+            a.populate_layers(&parts, &markers);
+        } else {
+            a.populate_state(s);
+        }
         AnySession::A(a)
     } else {
         AnySession::S(new_session(lts, o, s, rng))
@@ -292,8 +339,9 @@ pub fn new_session(lts: &Lts, o: &WalkOpts, s: &Snap, rng: &mut StdRng) -> Sessi
     sess.light = o.light;
     let nl = sess.w.layers.len();
     if nl > 1 && o.split {
-        let parts = split_state(lts, s, nl, rng, o.lower_only);
+        let (parts, markers) = split_state(lts, s, nl, rng, o.lower_only);
         sess.populate_layers(&parts);
+        sess.populate_markers(&markers);
     } else {
         sess.populate_state(s);
     }
